@@ -5,8 +5,8 @@ import json, os, threading
 from concurrent.futures import ThreadPoolExecutor
 import vlib
 
-CHUNK = 30000          # events per trace-validation process
-PAR = 3                # trace validations in parallel (1 TLC worker each)
+CHUNK = 20000          # events per trace-validation process
+PAR = 4                # trace validations in parallel (1 TLC worker each)
 
 
 def _tlc(ctx, cfg, timeout, simulate=None):
@@ -59,6 +59,11 @@ def simulate(ctx, cfg, num, timeout=1200):
     if r.error:
         raise vlib.ToolError("TLC simulation failed on MC_Market (%s): %s\n%s" % (cfg, r.error, _tail(r.raw)))
     return r
+
+
+def batches(rows, n=60000):
+    """replay / validate in batches so that a large model never has to be held in memory at once"""
+    return [rows[k:k + n] for k in range(0, len(rows), n)] or [[]]
 
 
 def replay(ctx, rows, cfgs, name):
